@@ -172,9 +172,44 @@ Definition check_wire_dest (ts : list N) : list N :=
   | _ => v_bad
   end.
 
+(* kind 7 (end-to-end rig): [7; prl; len; frame octets] -- a whole OFFER frame captured on the wire.
+   Judged with the receiver-side definitions only: IPv4 header checksum, lengths, UDP checksum
+   over the pseudo-header (or the RFC 768 zero), and the payload must decode as a DHCP message
+   (which needs its end marker) carrying a message type; when the DISCOVER asked for the policy's
+   long options (prl = 1) they must be there -- a reply cut short on its way to the frame fails here. *)
+Definition check_wire_frame (ts : list N) : list N :=
+  match ts with
+  | prl :: r =>
+    match tok_bytes r with
+    | Some (f, []) =>
+      let v := split_frame f in
+      let ih := fv_ip_hdr v in
+      let ud := fv_udp v in
+      let tot := be_decode (takeN 2 (dropN 2 ih)) in
+      let ulen := be_decode (takeN 2 (dropN 4 ud)) in
+      let uck := be_decode (takeN 2 (dropN 6 ud)) in
+      let payload := dropN 8 ud in
+      let sums := (fv_ethertype v =? 2048) && rx_sum_ok ih && (tot =? lenN f - 14) && (ulen =? tot - 20) &&
+                  ((uck =? 0) || rx_sum_ok (takeN 4 (dropN 12 ih) ++ takeN 4 (dropN 16 ih) ++ [0; 17]
+                                              ++ takeN 2 (dropN 4 ud) ++ ud)) in
+      if negb sums then v_viol 7
+      else match decode payload with
+           | Ok m =>
+             let has c := existsb (fun o => fst o =? c) (d_options m) in
+             if negb (has 53) then v_viol 7
+             else if negb (prl =? 0) && negb (has 15 && has 17 && has 252) then v_viol 7
+             else v_ok (13 + N.b2n (300 <? lenN payload))
+           | _ => v_viol 7
+           end
+    | _ => v_bad
+    end
+  | [] => v_bad
+  end.
+
 Definition check_C12 (ts : list N) : list N :=
   match ts with
   | 6 :: r => check_wire_dest r
+  | 7 :: r => check_wire_frame r
   | 1 :: r => check_flags r
   | 2 :: r => check_frame r
   | 3 :: r => check_roundtrip r
